@@ -514,6 +514,8 @@ func init() {
 			{Name: "api-dev-n4", KQuick: 3, KThor: 4, Gen: c03GenApi(graphOpts{N: 4, MaxMult: 2, Extras: true, DistMenu: true})},
 			{Name: "api-full-n3", KQuick: 0, KThor: -1, Gen: c03GenApi(graphOpts{N: 3, MaxMult: 1})},
 			{Name: "call-full-n4", KQuick: 0, KThor: -1, Gen: c03GenCall(graphOpts{N: 4, MaxMult: 1})},
+			{Name: "through-coca-call-rcall-count", KQuick: 1, KThor: 2, Gen: cliGraphGen},
+			{Name: "through-coca-api", KQuick: 1, KThor: 2, Gen: cliApiGen},
 		},
 		Extra: func(tier string) map[string]interface{} {
 			return map[string]interface{}{"measured_expansion_budget": calibrateBudget()}
